@@ -13,8 +13,8 @@ from . import core
 from . import monprog as mp
 
 PROP = "C06"
-LEAN_TARGETS = ["Asynkit.Props.C06"]
-PROPS_FILES = ["Asynkit/Props/C06.lean"]
+LEAN_TARGETS = ["Asynkit.Props.C06", "Asynkit.Lemmas.GenEqC06"]
+PROPS_FILES = ["Asynkit/Props/C06.lean", "Asynkit/Lemmas/GenEqC06.lean"]
 DRIVERS = ["AsyncGen"]
 TRUSTED = [
     "Lean 4.33 kernel; axioms ⊆ {propext, Classical.choice, Quot.sound} (audited per theorem each run)",
